@@ -16,9 +16,13 @@ Local Opaque BabyJub.modinv BabyJub.modsqrt BabyJub.Affine BabyJub.Projective
 
 Local Ltac same :=
   cbv zeta;
-  lazymatch goal with
-  | |- ?a = ?b => first [ constr_eq a b | fail 1 "generated code and hand model differ" ]
-  end; reflexivity.
+  first [ lazymatch goal with |- ?a = ?b => constr_eq a b end; reflexivity
+        | (* the same code up to boolean spelling: `if !c {A} else {B}` for `if c {B} else {A}`,
+             an early `return false` for a conjunction, ... (the heavy functions are Opaque here,
+             so the conversion below stays cheap) *)
+          rewrite ?Bool.if_negb; cbv beta iota zeta delta [andb orb];
+          rewrite ?Bool.if_negb; timeout 20 reflexivity
+        | fail 1 "generated code and hand model differ" ].
 
 Lemma gen_babyjub_PointProjective_Add_eq : forall q o,
   babyjub_PointProjective_Add q o = BabyJub.Add q o.
